@@ -322,6 +322,42 @@ func (w *Decoder) walk(ectx evaluationContext, n *html.Node) {
 						w.walk(nectx, itemrefNodes[0])
 					}
 				}
+			} else {
+				// the item was reached before (in document order, or through another item's itemref); it is not
+				// expanded again (its content belongs to it, not to the current item), but it still is a property
+				// value of the current item
+
+				resolvedSubject := ectx.Global.ResolvedItemscopes[n]
+
+				if len(attrItemprop) == 0 || ectx.CurrentSubject == nil {
+					return
+				}
+
+				nodeProfile, _ := w.doc.GetNodeMetadata(n)
+
+				var attrCursorRange *cursorio.TextOffsetRange
+
+				if w.captureOffsets {
+					if attrProfile := nodeProfile.TagAttr[attrItempropIdx]; attrProfile != nil && attrProfile.ValueOffsets != nil {
+						attrCursorRange = attrProfile.ValueOffsets
+					}
+				}
+
+				w.iterateItemprops(ectx, attrItemprop, attrCursorRange, func(p string, pCursorRange *cursorio.TextOffsetRange) {
+					w.statements = append(w.statements, statement{
+						triple: rdf.Triple{
+							Subject:   ectx.CurrentSubject,
+							Predicate: rdf.IRI(p),
+							Object:    resolvedSubject,
+						},
+						textOffsets: w.buildTextOffsets(
+							encoding.SubjectStatementOffsets, ectx.CurrentSubjectRange,
+							encoding.PredicateStatementOffsets, pCursorRange,
+						),
+					})
+				})
+
+				return
 			}
 		} else {
 			if len(attrItemid) > 0 {
